@@ -31,6 +31,7 @@ type dsys struct {
 	neq  []dcons // x - y != c
 	// for the linear prover (linsolve.go)
 	eqs    []linexp  // expressions equal to 0
+	ineqs  []linexp  // expressions <= 0
 	copies []copyRel // n = copy(dst, src): n is len(dst) or len(src)
 }
 
@@ -481,6 +482,68 @@ func (tb *TB) buildSystem(facts []Atom, at *ssa.BasicBlock, before ssa.Instructi
 		s.le("0", is, io) // idx >= 0
 		ls, lc, _ := tb.lenSym(l.Over)
 		s.le(is, ls, lc-1-io)
+	}
+	// accumulators: after a loop that visits every element of X and appends exactly one element
+	// to acc on every iteration, len(acc) == len(start) + len(X) (for a range over a string by
+	// rune: at most that, and exactly that if the string is known to be ASCII)
+	for _, l := range rangeLoops(fn) {
+		if l.inLoop(at) || !tb.p.completedAt(l, at) {
+			continue
+		}
+		for _, hi := range l.Header.Instrs {
+			ph, ok := hi.(*ssa.Phi)
+			if !ok {
+				break
+			}
+			if !isSliceType(ph) || ph == l.Phi {
+				continue
+			}
+			var start ssa.Value
+			okAcc := true
+			for k, pr := range l.Header.Preds {
+				e := ph.Edges[k]
+				if !l.blocks()[pr] {
+					if start != nil && start != e {
+						okAcc = false
+					}
+					start = e
+					continue
+				}
+				app, isCall := e.(*ssa.Call)
+				if !isCall || !isBuiltin(&app.Call, "append") || app.Call.Args[0] != ssa.Value(ph) {
+					okAcc = false
+					break
+				}
+				_, n, known := tb.lenSym(app.Call.Args[1])
+				if !known || n != 1 {
+					okAcc = false
+					break
+				}
+			}
+			if !okAcc || start == nil {
+				continue
+			}
+			as := "len(" + tb.Term(ph).Key() + ")"
+			ss, sc, _ := tb.lenSym(start)
+			if isNilConst(start) {
+				ss, sc = "0", 0
+			}
+			os, oc, _ := tb.lenSym(l.Over)
+			exact := l.Kind != "rangeiter"
+			if !exact && isStringType(l.Over.Type()) {
+				if in, isIn := l.Over.(ssa.Instruction); isIn && tb.p.asciiGuard(fn, l.Over, in) != nil {
+					exact = true
+				}
+			}
+			// len(acc) - len(start) - len(over) <= sc + oc   (and >= when exact)
+			e := symLin(as).addScaled(symLin(ss), -1).addScaled(symLin(os), -1)
+			e.k -= sc + oc
+			if exact {
+				s.eqs = append(s.eqs, e)
+			} else {
+				s.ineqs = append(s.ineqs, e)
+			}
+		}
 	}
 	s.tighten()
 	if withPhi {
